@@ -16,6 +16,8 @@ import (
 	"github.com/nginx/kubernetes-ingress/internal/configs/version2"
 	nl "github.com/nginx/kubernetes-ingress/internal/logger"
 	"github.com/nginx/kubernetes-ingress/internal/nginx"
+	conf_v1 "github.com/nginx/kubernetes-ingress/pkg/apis/configuration/v1"
+	networking "k8s.io/api/networking/v1"
 )
 
 // VerifC14Upstream is one generated upstream block.
@@ -124,4 +126,14 @@ func VerifC14NewConfigurator(repoDir string, mgr nginx.Manager, plus bool) (*Con
 		IsPlus:             plus,
 		NginxVersion:       static.NginxVersion,
 	}), nil
+}
+
+// VerifC14IngressUpstreamName = getNameForUpstream (host "" for the default backend).
+func VerifC14IngressUpstreamName(ing *networking.Ingress, host string, backend *networking.IngressBackend) string {
+	return getNameForUpstream(ing, host, backend)
+}
+
+// VerifC14TransportServerUpstreamName = newUpstreamNamerForTransportServer(ts).GetNameForUpstream(name).
+func VerifC14TransportServerUpstreamName(ts *conf_v1.TransportServer, name string) string {
+	return newUpstreamNamerForTransportServer(ts).GetNameForUpstream(name)
 }
